@@ -983,3 +983,78 @@ func unwrapConv(v ssa.Value) ssa.Value {
 		}
 	}
 }
+
+// ------------------------------------------------ transitive field effects (A7, field level)
+
+type fieldRW struct {
+	reads, writes map[*types.Var]ssa.Instruction
+}
+
+// transFieldRW collects the struct fields read and written by fn and, through
+// statically resolved calls (incl. closures created in fn, deferred calls and
+// invoked closures), by module callees up to the given depth.  Closing a
+// channel stored in a field counts as a write of that field, receiving from it
+// as a read.
+func transFieldRW(p *Program, fn *ssa.Function, depth int) fieldRW {
+	rw := fieldRW{map[*types.Var]ssa.Instruction{}, map[*types.Var]ssa.Instruction{}}
+	seen := map[*ssa.Function]bool{}
+	var visit func(f *ssa.Function, d int)
+	visit = func(f *ssa.Function, d int) {
+		if f == nil || seen[f] || f.Blocks == nil {
+			return
+		}
+		seen[f] = true
+		for _, a := range FieldAccesses(f) {
+			if a.Write {
+				if _, ok := rw.writes[a.Field]; !ok {
+					rw.writes[a.Field] = a.Instr
+				}
+			} else {
+				if _, ok := rw.reads[a.Field]; !ok {
+					rw.reads[a.Field] = a.Instr
+				}
+			}
+		}
+		for _, b := range f.Blocks {
+			for _, in := range b.Instrs {
+				switch in := in.(type) {
+				case *ssa.Call:
+					if bi, ok := in.Call.Value.(*ssa.Builtin); ok && bi.Name() == "close" {
+						if fv := chanFieldOf(in.Call.Args[0]); fv != nil {
+							rw.writes[fv] = in
+						}
+					}
+				case *ssa.MapUpdate:
+					if u, ok := in.Map.(*ssa.UnOp); ok {
+						if fa, ok := u.X.(*ssa.FieldAddr); ok {
+							if fv := fieldVar(fa.X.Type(), fa.Field); fv != nil {
+								rw.writes[fv] = in
+							}
+						}
+					}
+				}
+			}
+		}
+		if d <= 0 {
+			return
+		}
+		for _, cs := range Calls(f) {
+			cc := cs.Common()
+			var callee *ssa.Function
+			if sc := cc.StaticCallee(); sc != nil {
+				callee = sc
+			}
+			if callee != nil && p.inModule(callee) {
+				visit(callee, d-1)
+			}
+			// closures passed as arguments (Once.Do(func), forEach(func)) run as part of the call
+			for _, a := range cc.Args {
+				if mc, ok := a.(*ssa.MakeClosure); ok {
+					visit(mc.Fn.(*ssa.Function), d-1)
+				}
+			}
+		}
+	}
+	visit(fn, depth)
+	return rw
+}
